@@ -308,6 +308,8 @@ pub struct ShardSummary {
     pub violation_counts: BTreeMap<String, u64>,
     pub inconclusive: Vec<String>,
     pub samples: Vec<Value>,
+    #[serde(default)]
+    pub fallback_sample: Option<Value>,
     pub wall_s: f64,
 }
 
@@ -445,6 +447,14 @@ pub fn run_worker<P: Prop>(a: WorkArgs) -> anyhow::Result<()> {
                 s["observed"] = n.clone();
             }
             sum.samples.push(s);
+        } else if sum.fallback_sample.is_none() {
+            // shown only if the run has no non-trivial, non-violating case to show
+            let mut s = json!({"case": case_json.clone(), "nontrivial": obs.nontrivial,
+                "violating": !obs.violations.is_empty()});
+            if let Some(n) = &obs.note {
+                s["observed"] = n.clone();
+            }
+            sum.fallback_sample = Some(s);
         }
         for v in &obs.violations {
             sum.violations += 1;
